@@ -1,6 +1,6 @@
 from pyvc.contracts import contract
 from .function_logger import wf_at
-from .common import type_options, type_bads_state, inv_bads
+from .common import type_options, type_bads_state, inv_bads, inv_c04, INC, MIN, LOGMAP, DET, NOHE, LOG_GROWS
 
 B = "pybads.bads.bads.BADS"
 
@@ -69,6 +69,11 @@ def _(c):
     c.ens("mesh_untouched", "msi == old(msi) and ssi == old(ssi) and self.optim_state['mesh_size'] == old(self.optim_state['mesh_size'])",
           top=True, props=["C13"])
     c.ens("options_kept", "NT == old(NT) and B_ == old(B_) and MI == old(MI)")
+    c.ens("level_kept", "lvl == old(lvl)")
+    c.req("sloppy", "truthy(self.options['sloppy_improvement'])", props=["C04", "C19"])
+    c.req("u_is_best", "implies(" + DET + ", pteq(pt(self.u), pt(self.u_best)))", props=["C04", "C19"])
+    c.ens("u_is_best", "implies(" + DET + ", pteq(pt(self.u), pt(self.u_best)))", props=["C04", "C19"])
+    inv_c04(c)
     c10(c)
 
 
@@ -97,6 +102,13 @@ def _(c):
                         " and self.options['tol_fun'] == old(self.options['tol_fun'])",
         # C13
         "mesh_cap": "msi <= cap and ssi <= msi",
+        # C04
+        "c04_incumbent_logged": "implies(" + DET + ", " + INC("self.u_best", "self.yval") + ")",
+        "c04_incumbent_minimal": "implies(" + DET + ", " + MIN("self.yval") + ")",
+        "c04_estimate_is_observation": "implies(" + DET + ", self.fval == self.yval and self.fsd == 0)",
+        "c04_log_maps_back": LOGMAP,
+        "c04_u_is_best": "implies(" + DET + ", pteq(pt(self.u), pt(self.u_best)))",
+        "c04_level_kept": "lvl == ghost.lvl0 and truthy(self.options['sloppy_improvement'])",
         "msg_truth": "implies(is_finished, "
                      "(not streq(msg, '')) and streq(self.optim_state['termination_msg'], msg)"
                      " and implies(streq(msg, MSG_FUN), fc >= B_)"
@@ -105,7 +117,7 @@ def _(c):
                      " and implies(streq(msg, MSG_TOLFUN), self.f_q_historic_improvement < self.options['tol_fun']))",
     }
     c.loop(0, invariants=inv, variant=["MI - 1 - poll_iteration", "B_ - ghost.fc_round", "NT - sc"],
-           ghost={"fc_round": "fc", "fc_init": "fc", "NT0": "NT", "MI0": "MI", "B0": "B_", "nfs0": "nfs"},
+           ghost={"fc_round": "fc", "fc_init": "fc", "NT0": "NT", "MI0": "MI", "B0": "B_", "nfs0": "nfs", "lvl0": "lvl"},
            modifies_extra=["ghost.fc_round"])
     c.hook("self.optim_state['search_count'] = 0", {"ghost.fc_round": "fc"})
     c.loop(1, invariants={
@@ -128,6 +140,13 @@ def _(c):
           " and implies(streq(self.optim_state['termination_msg'], MSG_MESH), self.optim_state['mesh_size'] < self.optim_state['tol_mesh'])"
           " and implies(streq(self.optim_state['termination_msg'], MSG_TOLFUN), self.f_q_historic_improvement < self.options['tol_fun'])",
           top=True, props=["C03", "C13"])
+    # ---- C04 -----------------------------------------------------------------------------------------------------
+    c.req("sloppy", "truthy(self.options['sloppy_improvement'])", props=["C04", "C19"])
+    c.req("fresh_log", "self.function_logger.Xn == -1", props=["C04", "C19"])
+    c.req("log_maps_back", LOGMAP, props=["C04", "C19"])
+    c.ens("result_is_best_evaluated_point", "implies(" + DET + ", "
+          "exists(self.function_logger.Xn + 1, lambda i: pteq(row(self.function_logger.X_orig, i), pt(self.x)) and self.function_logger.Y[i][0] == self.fval) and "
+          "forall(self.function_logger.Xn + 1, lambda i: self.fval <= self.function_logger.Y[i][0]) and self.fsd == 0)", top=True, props=["C04"])
     # ---- C13 -----------------------------------------------------------------------------------------------------
     c.ens("mesh_le_one", "msi <= 0 and ssi <= msi", top=True, props=["C13"])
     # C01: the returned solution lies in the original hard box
@@ -151,6 +170,11 @@ def _(c):
     c.ens("reserve", "implies(lvl > 0, nfs == ite(old(nfs) <= old(B_) - fc, old(nfs), old(B_) - fc) and B_ == old(B_) - nfs)",
           top=True, props=["C03", "C05"])
     c.ens("no_reserve_when_deterministic", "implies(lvl <= 0, nfs == old(nfs) and B_ == old(B_))", top=True, props=["C03"])
+    c.req("fresh_log", "self.function_logger.Xn == -1", props=["C04", "C19"])
+    c.req("log_maps_back", LOGMAP, props=["C04", "C19"])
+    inv_c04(c, require=False)
+    c.ens("u_is_best", "implies(" + DET + ", pteq(pt(self.u), pt(self.u_best)))", props=["C04", "C19"])
+    c.ens("sloppy_kept", "truthy(self.options['sloppy_improvement']) == truthy(old(self.options['sloppy_improvement']))")
     c.ens("stobads_off_kept", "implies(not truthy(old(self.options['stobads'])), not truthy(self.options['stobads']))")
     c.result = {"tuple": [{}, {}, {}, {}]}
     c10(c)
@@ -162,7 +186,13 @@ def _(c):
     c.loop(0, invariants={"count_grows": "fc >= old(fc)",
                           "calls_counted": "ghost.n_calls - old(ghost.n_calls) == fc - old(fc)",
                           "no_failure": "not truthy(ghost.target_raised)",
-                          "logger_wf": wf_at("self.function_logger")})
+                          "logger_wf": wf_at("self.function_logger"),
+                          "c04_log_maps_back": LOGMAP, "c04_log_grows": LOG_GROWS, "c04_he": "truthy(self.function_logger.he_noise_flag) == truthy(old(self.function_logger.he_noise_flag))",
+                          "c04_first": "implies(" + NOHE + ", self.function_logger.Xn >= 0)"})
+    c.req("fresh_log", "self.function_logger.Xn == -1", props=["C04", "C19"])
+    c.req("log_maps_back", LOGMAP, props=["C04", "C19"])
+    inv_c04(c, require=False, u="self.u", with_fsd=False)
+    c.ens("sloppy_kept", "truthy(self.options['sloppy_improvement']) == truthy(old(self.options['sloppy_improvement']))")
     c10(c)
     c.ens("count_grows", "fc >= old(fc)", props=["C03"])
     c.ens("calls_counted", "ghost.n_calls - old(ghost.n_calls) == fc - old(fc)", top=True, props=["C03"])
